@@ -120,6 +120,11 @@ func (r *receiveHandler) receiveCallCompressed(rpc *rpcCallCompressedMessage) er
 
 func (r *receiveHandler) receiveCancel(rpc *rpcCancelMessage) error {
 	r.log.ServerCancelCall(rpc.SeqNo(), rpc.Name())
+	if rpc.SeqNo() < 0 {
+		// Calls have non-negative sequence numbers; negative task keys
+		// belong to notifications, which no peer can cancel.
+		return nil
+	}
 	select {
 	case r.taskCancelCh <- rpc.SeqNo():
 	case <-r.stopCh:
